@@ -525,6 +525,27 @@ func Big(rng *fw.Rng, W int64) Poly {
 	}
 }
 
+// Huge: a sheet with k x k small holes (k = 23..30: 529-900 holes, 1600-3600 vertices) - beyond any size threshold a
+// "small inputs only" code path could hide behind (worker pools, fixed-size tables, quadratic fallbacks).
+func Huge(rng *fw.Rng, W int64) Poly {
+	k := int64(23 + rng.Intn(8))
+	pitch := int64(5 + rng.Intn(6)) // q between hole origins
+	hs := int64(1 + rng.Intn(3))    // hole size in q
+	size := k*pitch + 4
+	p := Poly{{{0, 0}, {size, 0}, {size, size}, {0, size}}}
+	for i := int64(0); i < k; i++ {
+		for j := int64(0); j < k; j++ {
+			x, y := 3+i*pitch, 3+j*pitch
+			if rng.Bool() {
+				p = append(p, []P{{x, y}, {x, y + hs}, {x + hs, y}})
+			} else {
+				p = append(p, []P{{x, y}, {x, y + hs}, {x + hs, y + hs}, {x + hs, y}})
+			}
+		}
+	}
+	return p
+}
+
 // Kinds lists all generator names.
 var Kinds = []string{"star", "comb", "sliver", "angle", "rectholes", "spiky", "grow", "junk", "motif", "border", "moat"}
 
@@ -557,6 +578,8 @@ func ByName(name string, rng *fw.Rng, W int64) Poly {
 		return Degenerate(rng, W)
 	case "big":
 		return Big(rng, W)
+	case "huge":
+		return Huge(rng, W)
 	}
 	panic("unknown generator " + name)
 }
